@@ -94,7 +94,7 @@ ASSUMPTIONS = [
     "Rayleigh and for the generators MuChannel clones itself",
 ]
 
-QUICK_BUDGET_S = 180   # ~100 CPU-s in total; only reached on a loaded host
+QUICK_BUDGET_S = 300   # ~100 CPU-s in total; only reached on a loaded host
 THOROUGH_BUDGET_S = 1500
 
 COST = {"TU": "COST259_TUx", "RA": "COST259_RAx", "HT": "COST259_HTx"}
